@@ -575,12 +575,16 @@ func addBinaryIntrinsics() {
 					st = mkUF(fmt.Sprintf("crcstep%d", width), bvSort(width), st, bt)
 					continue
 				}
-				st = mkBvBin(opBvXor, st, mkZext(bt, width-8))
+				// linear form of one table step (exact: table[x] is GF(2)-linear in x; the
+				// equality with the bitwise definition is lemma H03a_Linear):
+				//   st' = (st >> 8) ^ XOR_i bit_i(low8(st) ^ b) * T[1<<i]
+				x := mkBvBin(opBvXor, mkExtract(st, 7, 0), bt)
+				acc := mkBvBin(opBvLshr, st, mkBV(width, 8))
 				for k := 0; k < 8; k++ {
-					lsb := mkExtract(st, 0, 0)
-					sh := mkBvBin(opBvLshr, st, mkBV(width, 1))
-					st = mkIte(mkEq(lsb, mkBV(1, 1)), mkBvBin(opBvXor, sh, mkBV(width, poly)), sh)
+					bitk := mkExtract(x, k, k)
+					acc = mkBvBin(opBvXor, acc, mkIte(mkEq(bitk, mkBV(1, 1)), mkBV(width, crcLin(width, poly, k)), mkBV(width, 0)))
 				}
+				st = acc
 			}
 			r := mkBvNot(st)
 			if width == 16 {
@@ -605,4 +609,17 @@ func asUint64Any(v value) uint64 {
 		return uint64(x)
 	}
 	return ^uint64(0)
+}
+
+// crcLin returns table[1<<k] of the reflected CRC with the given polynomial.
+func crcLin(width int, poly uint64, k int) uint64 {
+	c := uint64(1) << uint(k)
+	for j := 0; j < 8; j++ {
+		if c&1 == 1 {
+			c = (c >> 1) ^ poly
+		} else {
+			c >>= 1
+		}
+	}
+	return c & wmask(width)
 }
